@@ -95,15 +95,15 @@ theorem block_recovered (O : Oracle) (b : SBlock) (h : b.WF O) :
 theorem selector_groups_recovered (s : SSel) (h : s.WF) : (selGroups s.toks).map clean = s.erase :=
   selGroups_render s h
 
-/-- `@media` (nested to any depth): `CSSMediaRule.cssText = tokens` builds the rule of the spelled one, with
-any amount of fuel above the number of tokens -/
+/-- `@media` (nested to any depth, with or without a name — `@media print "name" {`): `CSSMediaRule.cssText =
+tokens` builds the rule of the spelled one, with any amount of fuel above the number of tokens -/
 theorem media_rule_recovered (O : Oracle) (M : List Cps) (hO : AtFaithful O) (ns : List (Cps × Cps)) (kw : Mask) (g1 : Gap)
-    (mq : List Tok) (g2 : Gap) (lead : WGap) (rules : SRules)
-    (h : (SRule.media kw g1 mq g2 lead rules).WF O M ns false) (f : Nat)
-    (hf : (SRule.media kw g1 mq g2 lead rules).toks.length < f) :
-    (mediaRule O ns f (SRule.media kw g1 mq g2 lead rules).toks).map (projRule O M) =
-      some (SRule.media kw g1 mq g2 lead rules).erase := by
-  rw [mediaRule_render O M hO ns kw g1 mq g2 lead rules false h f hf]
+    (mq : List Tok) (g2 : Gap) (name : SName) (lead : WGap) (rules : SRules)
+    (h : (SRule.media kw g1 mq g2 name lead rules).WF O M ns false) (f : Nat)
+    (hf : (SRule.media kw g1 mq g2 name lead rules).toks.length < f) :
+    (mediaRule O ns f (SRule.media kw g1 mq g2 name lead rules).toks).map (projRule O M) =
+      some (SRule.media kw g1 mq g2 name lead rules).erase := by
+  rw [mediaRule_render O M hO ns kw g1 mq g2 name lead rules false h f hf]
   simp [projRule_parsed O M ns false _ h]
 
 /-- string values: `_stringtokenvalue` / `_uritokenvalue` give back the text for every quote style, every
